@@ -33,7 +33,7 @@ def bounds(tier):
 
 def goals(tier):
     return ["default-id", "requested-id", "k=3", "annotated-inputs", "unused-module-in-comment", "two-level-nested-provenance",
-            "genbank-roundtrip", "rotated-inputs", "long-chain-comment"]
+            "genbank-roundtrip", "rotated-inputs", "long-chain-comment", "product-named-like-one-of-its-parts"]
 
 
 def annotate(s, name):
@@ -45,7 +45,7 @@ def annotate(s, name):
     return [gen.mk_feature(parts, type=typ, fid="%s-f%d" % (name, i)) for i, (typ, parts) in enumerate(tab)]
 
 
-def check_product(st, scn, prod, inputs, want_id, want_name, module_ids, vector_id):
+def check_product(st, scn, prod, inputs, want_id, want_name, module_ids, vector_id, cutter_geometry=None):
     """inputs: {id: circular string} of THIS assembly"""
     ok = True
     if not isinstance(prod, CircularRecord):
@@ -70,12 +70,37 @@ def check_product(st, scn, prod, inputs, want_id, want_name, module_ids, vector_
     spans = sorted((int(f.location.start), int(f.location.end), asm.qual1(f, "plasmid")) for f in gen_feats)
     pos = 0
     tiled = True
-    for a, b, pid in spans:
-        if a != pos or b <= a:
-            tiled = False
-            break
-        pos = b
-    if not spans or not tiled or pos != n:
+    if cutter_geometry is not None:
+        # identifiers of this assembly's inputs also occur among the inherited (inner) provenance features, so "generated"
+        # cannot be told from "inherited" by name: demand instead, for every retained fragment located by the digestion
+        # model, one source feature with exactly that span naming that input (these spans tile the product by construction)
+        want = []
+        for pid, src in inputs.items():
+            fr = rm.site_free_fragment(src, cutter_geometry)
+            if fr is None:
+                continue
+            a = (seq + seq).upper().find(fr["text"].upper())
+            if 0 <= a and a + len(fr["text"]) <= n:
+                want.append((a, a + len(fr["text"]), pid))
+        have = set((int(f.location.start), int(f.location.end), asm.qual1(f, "plasmid")) for f in prod.features if asm.is_generated_source(f))
+        missing = [w for w in want if w not in have]
+        if len(want) != len(inputs) - len(scn.get("unused_inputs", [])) or sorted(w[:2] for w in want)[0][0] != 0:
+            st.extra["collision-variant-not-evaluable"] += 1
+        elif missing:
+            st.violation("provenance", "retained-fragment-without-its-source-feature", scn, [list(w) for w in want], sorted(list(h) for h in have))
+            ok = False
+        spans = []
+        tiled = True
+        pos = n
+    else:
+        for a, b, pid in spans:
+            if a != pos or b <= a:
+                tiled = False
+                break
+            pos = b
+    if cutter_geometry is not None:
+        pass
+    elif not spans or not tiled or pos != n:
         st.violation("provenance", "source-features-do-not-tile-the-product", scn, "tiling of [0,%d)" % n, [list(s) for s in spans])
         ok = False
     else:
@@ -220,10 +245,13 @@ def run_unit(unit, st, tier):
         kit = arg
         for n_entries in (1, 2, 3):
             for rot in (0, 3, "half"):
-                scn = dict(two_level=kit, entries=n_entries, cassette_rotation=rot)
-                run_two_level(st, scn)
-                st.scenario("two-level", None, calls=4)
-                st.nontrivial += 1
+                for collide in (False, True):
+                    scn = dict(two_level=kit, entries=n_entries, cassette_rotation=rot)
+                    if collide:
+                        scn["cassette_named_like_first_entry"] = True
+                    run_two_level(st, scn)
+                    st.scenario("two-level", None, calls=4)
+                    st.nontrivial += 1
         st.sample(dict(two_level=kit, entries=2))
 
 
@@ -269,11 +297,21 @@ def run_two_level(st, scn):
         pass
     from ..engine import Stats
     tmp = Stats(ID)
-    o = c11.two_level(tmp, scn["two_level"], scn["entries"], scn, cassette_rotation=scn.get("cassette_rotation", 0))
+    collide = scn.get("cassette_named_like_first_entry", False)
+    cids = ["e00", "e10"] if collide else ["cas0", "cas1"]
+    o = c11.two_level(tmp, scn["two_level"], scn["entries"], scn, cassette_rotation=scn.get("cassette_rotation", 0), cassette_ids=cids)
     if o is None:
         st.violation("two-level", "two-level-assembly-did-not-complete", scn, "device product", sorted(tmp.violations))
         return
     prod = o.record
+    if collide:
+        inputs0, level1 = rebuild_inputs(scn, with_level1=True)
+        inputs = {"e00": inputs0["cas0"], "e10": inputs0["cas1"], "dv": inputs0["dv"]}
+        DV = gen.class_by_name(c11.TWO_LEVEL[scn["two_level"]]["device_vector"])
+        check_product(st, dict(scn, retained_fragments=3), prod, inputs, "device", "device", ["e00", "e10"], "dv",
+                      cutter_geometry=gen.geometry_of(DV.cutter))
+        st.goal("product-named-like-one-of-its-parts")
+        return
     inner = [f for f in prod.features if asm.is_generated_source(f) and asm.qual1(f, "plasmid") not in ("cas0", "cas1", "dv")]
     if inner:
         st.goal("two-level-nested-provenance")
